@@ -545,6 +545,6 @@ def c05_r6(ctx):
                        detail="alias taken at line %d, self.%s re-bound at line %s, `%s` worked on at line %s" % (
                            st.lineno, attr, getattr(p1[-1].ast, "lineno", "?"), x, getattr(bad[-1].ast, "lineno", "?")),
                        path=cfgmod.path_text(bad), loc=ctx.nodeloc(f, st))
-    ctx.ob("whole program", n > 300, "%d local aliases of instance attributes followed through their methods" % n)
-    if n < 300:
+    ctx.ob("whole program", n > 100, "%d local aliases of instance attributes followed through their methods" % n)
+    if n < 100:
         raise AnalysisError("only %d attribute aliases found" % n)
